@@ -45,7 +45,7 @@ Aln(i, nm, kind, obs) ==
 AlnOpts(i) == { Aln(i, nm, kind, obs) : nm \in 1..i, kind \in Kinds, obs \in ObsSeqs(NSites) }
 
 World(calls, alns, ts) ==
-    [ ploidy |-> 2, tagSupp |-> ts, linked |-> FALSE, ignoreRG |-> FALSE, onlySample |-> 1,
+    [ ploidy |-> 2, tagSupp |-> ts, linked |-> FALSE, cutoff |-> 0, ignoreRG |-> FALSE, onlySample |-> 1,
       rgSample |-> <<1>>, sites |-> [ j \in 1..NSites |-> [chrom |-> 1, pos |-> 100 * j, len |-> 1] ],
       phase |-> << calls >>, regions |-> <<>>, aln |-> alns ]
 
